@@ -126,6 +126,9 @@ func childMain(spec string) int {
 	childSeed, _ = strconv.ParseInt(os.Getenv("VERIF_C08_SEED"), 10, 64)
 	parts := strings.Split(spec, "|")
 	buildPlan()
+	if registry[parts[1]] == nil {
+		heavyInsts()
+	}
 	n := registry[parts[1]]
 	if n == nil {
 		fmt.Println("C08CHILD:HARNESS:unknown instance " + parts[1])
